@@ -62,6 +62,10 @@ def ascii_ok(path) -> bool:
   return True
 
 
+def _und(_seed=3, _x1=None, plain=0, **kw):
+  return ("_und", _seed, _x1, plain, kw)
+
+
 def gen_config(rng, depth=0):
   """Configurations whose leaves are literals and whose dict keys are in the stated domain."""
   def leaf():
@@ -78,6 +82,10 @@ def gen_config(rng, depth=0):
     if d < 3 and r < 0.7:
       return (value(d + 1), leaf())
     return leaf()
+  if rng.random() < 0.12:
+    # parameter / **kwargs names that start with an underscore (at the root and nested)
+    kwargs = {k: value(depth) for k in rng.sample(["_seed", "_x1", "plain", "_extra", "__d", "_9"], rng.randint(1, 4))}
+    return fdl.Config(_und, **kwargs)
   fn = rng.choice([l2.fa, l2.fb, l2.fd, l2.fg, l2.Ka, l2.fe])
   args, kwargs = l2.gen_args_for(rng, fn, lambda: value(depth))
   try:
